@@ -3,6 +3,7 @@ package main
 // Term-based properties: C02 (matching rule), C08 (equivalent spellings), C09 (letter case), C11 (version order).
 
 import (
+	"sort"
 	"fmt"
 	"regexp"
 	"strconv"
@@ -306,6 +307,96 @@ func init() {
 					}
 				}
 			}
+			if len(corrQ) > 50000 {
+				flushCorr()
+			}
+		}
+		// ids that LOOK related without being so (or that are related outside the version table): all listed ids with the same
+		// stem (the id without a trailing -only / -or-later / '+'), and for every family the listed non-members that share a
+		// member's text as a prefix or sort between the members — every ordered pair, with and without '+'
+		all := append(append([]string{}, tblActive...), tblDeprecated...)
+		stem := func(x string) string {
+			x = strings.TrimSuffix(x, "+")
+			x = strings.TrimSuffix(x, "-only")
+			return strings.TrimSuffix(x, "-or-later")
+		}
+		groups := map[string][]string{}
+		for _, x := range all {
+			groups[stem(x)] = append(groups[stem(x)], x)
+		}
+		var stems []string
+		for st, g := range groups {
+			if len(g) >= 2 {
+				stems = append(stems, st)
+			}
+		}
+		sort.Strings(stems)
+		pairAll := func(xs []string, label string) {
+			for _, a := range xs {
+				for _, b := range xs {
+					for _, pa := range []bool{false, true} {
+						for _, pb := range []bool{false, true} {
+							ta, tb := mkTerm(a, "", pa, "", -1), mkTerm(b, "", pb, "", -1)
+							if !implValid(ta.text) || !implValid(tb.text) {
+								continue
+							}
+							if fl := c02Pair(ta, tb, true); fl != nil {
+								fail(*fl)
+							}
+							count(label)
+						}
+					}
+				}
+			}
+		}
+		for _, st := range stems {
+			if _, inTable := tablePos(groups[st][0]); inTable && !thorough() && rng.Intn(4) != 0 {
+				continue // in-table stems are covered by the family blocks above
+			}
+			pairAll(groups[st], "same_stem_pairs")
+			if len(corrQ) > 50000 {
+				flushCorr()
+			}
+		}
+		for _, f := range tblRanges {
+			member := map[string]bool{}
+			var members []string
+			for _, g := range f {
+				for _, x := range g {
+					member[x] = true
+					members = append(members, x)
+				}
+			}
+			sort.Strings(members)
+			var look []string
+			for _, x := range all {
+				if member[x] {
+					continue
+				}
+				near := x > members[0] && x < members[len(members)-1]
+				for _, m := range members {
+					if strings.HasPrefix(x, m) || strings.HasPrefix(x, stem(m)) {
+						near = true
+					}
+				}
+				if near {
+					look = append(look, x)
+				}
+			}
+			if len(look) == 0 {
+				continue
+			}
+			if len(look) > scale(6, 40) {
+				rng.Shuffle(len(look), func(i, j int) { look[i], look[j] = look[j], look[i] })
+				look = look[:scale(6, 40)]
+			}
+			ms := members
+			if len(ms) > scale(5, 40) {
+				ms = append([]string{}, ms...)
+				rng.Shuffle(len(ms), func(i, j int) { ms[i], ms[j] = ms[j], ms[i] })
+				ms = ms[:scale(5, 40)]
+			}
+			pairAll(append(append([]string{}, look...), ms...), "family_lookalike_pairs")
 			if len(corrQ) > 50000 {
 				flushCorr()
 			}
@@ -1027,6 +1118,29 @@ func init() {
 					}
 				}
 			}
+			// the '+' written out as -or-later, behind an earlier term whose -or-later is NOT rewritten by the scanner
+			// (a listed GNU -or-later id, a reference name ending in -or-later): the reach must be the same, and nothing fails
+			if al := a + "-or-later"; rng.Intn(scale(4, 1)) == 0 && implValid(al) && !strings.HasSuffix(a, "-only") {
+				_, va := versionOf(a)
+				_, vb := versionOf(b)
+				fa, _ := versionOf(a)
+				fb, _ := versionOf(b)
+				wantE := fa == fb && va.ok && vb.ok && cmpVersion(va, vb) <= 0 || a == b
+				for _, g := range []string{"GPL-2.0-or-later", "LicenseRef-x-or-later", "AGPL-3.0-or-later+", "(LGPL-2.1-or-later)"} {
+					if implMatch(strings.Trim(g, "()"), b) != 0 {
+						continue
+					}
+					for _, e := range []string{g + " OR " + al, g + " OR (LicenseRef-helper AND " + al + ")", al + " OR " + g} {
+						r := implSat(e, []string{b, "LicenseRef-helper"})
+						res.Evaluations++
+						count("spelled_or_later_behind_unrewritten")
+						if r.err != nil || r.panicv != nil || r.ok != wantE {
+							fail(failure{Stream: "oracle", What: "'+' written as -or-later behind a term whose -or-later stays in the text: " + what, Case: &kase{Expr: e, ExprHex: hx(e), Allowed: []string{b, "LicenseRef-helper"}}, Impl: r.String(), Expected: fmt.Sprint(wantE)})
+							break
+						}
+					}
+				}
+			}
 			// '+' on the other side / both sides
 			if m2 := implMatch(b+"+", a); m2 >= 0 {
 				_, va := versionOf(a)
@@ -1074,6 +1188,68 @@ func init() {
 						count("uncovered_family_pairs")
 						if r.panicv != nil || r.err != nil || r.ok {
 							fail(failure{Stream: "oracle", What: "ids of a family the table does not cover: '+' must not reach (and nothing may fail)", Case: &kase{Expr: pr[0], ExprHex: hx(pr[0]), Allowed: []string{pr[1]}}, Impl: r.String(), Expected: "false"})
+						}
+					}
+				}
+			}
+		}
+		// listed ids that look like members of a covered family without being in it (same text up to a suffix, a member's
+		// text as a prefix, sorting between the members), -only / -or-later forms included: '+' never reaches them and they
+		// never reach a member, in any of the four '+' combinations and in both directions
+		{
+			listed := append(append([]string{}, tblActive...), tblDeprecated...)
+			stem := func(x string) string {
+				x = strings.TrimSuffix(x, "+")
+				x = strings.TrimSuffix(x, "-only")
+				return strings.TrimSuffix(x, "-or-later")
+			}
+			for _, f := range tblRanges {
+				member := map[string]bool{}
+				var members []string
+				for _, g := range f {
+					for _, x := range g {
+						member[x] = true
+						members = append(members, x)
+					}
+				}
+				sort.Strings(members)
+				var look []string
+				for _, x := range listed {
+					if member[x] || member[stem(x)] { // X-only / X-or-later of a member ARE the member (C08)
+						continue
+					}
+					near := x > members[0] && x < members[len(members)-1]
+					for _, m := range members {
+						if strings.HasPrefix(x, stem(m)) {
+							near = true
+						}
+					}
+					if near {
+						look = append(look, x)
+					}
+				}
+				if len(look) > scale(8, 60) {
+					rng.Shuffle(len(look), func(i, j int) { look[i], look[j] = look[j], look[i] })
+					look = look[:scale(8, 60)]
+				}
+				ms := members
+				if len(ms) > scale(6, 60) {
+					ms = append([]string{}, ms...)
+					rng.Shuffle(len(ms), func(i, j int) { ms[i], ms[j] = ms[j], ms[i] })
+					ms = ms[:scale(6, 60)]
+				}
+				for _, l := range look {
+					for _, m := range ms {
+						for _, pr := range [][2]string{{l, m}, {l + "+", m}, {l, m + "+"}, {l + "+", m + "+"}, {m, l}, {m + "+", l}, {m, l + "+"}, {m + "+", l + "+"}} {
+							if !implValid(pr[0]) || !implValid(pr[1]) {
+								continue
+							}
+							r := implSat(pr[0], []string{pr[1]})
+							res.Evaluations++
+							count("family_lookalike_pairs")
+							if r.err != nil || r.panicv != nil || r.ok {
+								fail(failure{Stream: "oracle", What: "an id outside the family (but looking like a member) is reached by, or reaches, a member of the family", Case: &kase{Expr: pr[0], ExprHex: hx(pr[0]), Allowed: []string{pr[1]}}, Impl: r.String(), Expected: "false"})
+							}
 						}
 					}
 				}
